@@ -213,6 +213,8 @@ def native_scale(cls_name, s, exc, seed):
             return magpy.magnet.Sphere(diameter=1.3 * sc, polarization=pol), 0
         if cls_name == "Tetrahedron":
             return magpy.magnet.Tetrahedron(vertices=np.array([(0, 0, 0), (1, 0, 0), (0, 1, 0), (0.2, 0.3, 1)]) * sc, polarization=pol), 0
+        if cls_name == "Tetrahedron(left-handed vertex order)":
+            return magpy.magnet.Tetrahedron(vertices=np.array([(0, 0, 0), (1, 0, 0), (0.2, 0.3, 1), (0, 1, 0)]) * sc, polarization=pol), 0
         if cls_name == "Triangle":
             return magpy.misc.Triangle(vertices=np.array([(0, 0, 0), (1, 0, 0), (0, 1, 0.3)]) * sc, polarization=pol), 0
         if cls_name == "TriangularMesh":
@@ -271,8 +273,8 @@ def main(tier, seed):
     crosscheck.attach(rep, seed)
     rep.assumed_contract("core field functions are positively homogeneous in their length arguments (degree 0 magnets, -1 currents, -3 dipole): PROVED here for "
                          "magnet_cuboid_Bfield, dipole_Hfield, triangle_Bfield (real code, dimension calculus incl. additive degrees of logarithms); ASSUMED for the "
-                         "stubs of the remaining cores: cyl_dia_H, cyl_ax_B, seg_H, circle_H, polyline_H, point_inside, det_neg")
-    rep.assumed_contract("tetrahedron point_inside / chirality determinant sign invariant under common positive scaling (assumed)")
+                         "stubs of the remaining cores: cyl_dia_H, cyl_ax_B, seg_H, circle_H, polyline_H, point_inside")
+    rep.assumed_contract("tetrahedron point_inside invariant under common positive scaling (assumed); the chirality decision of check_chirality is PROVED scale invariant (real code, dimension calculus)")
     rep.axiom("homogeneity rules of the dimension calculus: sqrt(s^2 q) = s sqrt(q), arctan2(s y, s x) = arctan2(y, x) for s > 0, order preserved by s > 0")
     rep.assume("TriangularMesh wrapper, mesh validation and face orientation: only in the numeric stand-in (known absolute tolerances there)")
     rep.explanation = "dimension-calculus type derivation over the term DAG of every path of every wrapper (length and excitation gradings)"
@@ -294,7 +296,7 @@ def main(tier, seed):
             f0 = next(f for f in fails if f.get("known_region") == rid)
             rep.violation(f0["name"], {"why": "refuted; region not listed in known_findings.json", "region": rid}, found_input=False)
     # bounded stand-in and replay search: decade sweep
-    classes = ["Cuboid", "Cylinder", "CylinderSegment", "Sphere", "Tetrahedron", "Triangle", "TriangularMesh", "Circle", "Polyline", "Dipole"]
+    classes = ["Cuboid", "Cylinder", "CylinderSegment", "Sphere", "Tetrahedron", "Tetrahedron(left-handed vertex order)", "Triangle", "TriangularMesh", "Circle", "Polyline", "Dipole"]
     decades = [1e-9, 1e-6, 1e-3, 1e-1, 10, 1e3, 1e6, 1e9] if tier == "quick" else [10.0**e for e in range(-9, 10)]
     excs = [1e-12, 1, 1e12] if tier == "quick" else [10.0**e for e in range(-12, 13, 3)]
     knownsweep = {k["id"]: k for k in load_known() if k["property"] == PID and k.get("status") == "known" and k.get("sweep")}
@@ -315,7 +317,8 @@ def main(tier, seed):
         if f.get("known_region"):
             continue
         cls = f["wrapper"].split("(")[0]
-        hit = next((b for b in bad if b[0] == cls or cls == "getBH_level1"), None)
+        cls = {"check_chirality": "Tetrahedron", "magnet_cuboid_Bfield": "Cuboid", "dipole_Hfield": "Dipole", "triangle_Bfield": "Triangle"}.get(cls, cls)
+        hit = next((b for b in bad if b[0].split("(")[0] == cls or cls == "getBH_level1"), None)
         if hit:
             rep.violation(f["name"], {"why": f["why"], "native_result": hit[3], "script": REPLAY.format(cls=hit[0], s=hit[1], exc=hit[2], seed=seed)})
         else:
